@@ -30,7 +30,7 @@ def pick_aad(rng):
 
 def gen_cases(rng, tier, scale=1):
     cases = []
-    reps = (1 if tier == "quick" else 4) * scale
+    reps = (2 if tier == "quick" else 8) * scale
     # (carried residue r, fill amount f): first update leaves r bytes open, the second brings f:
     # stays below the block (r+f<16), completes it exactly, or crosses it; then a bulk part
     for r in range(16):
@@ -49,17 +49,27 @@ def gen_cases(rng, tier, scale=1):
         for j, x in enumerate([0, 5, 16, 256][:2 * reps + 2]):
             segs = [p, ((16 - p) if p else 0) + 256, x] + ([0, 1] if j == 1 else [])
             cases.append(mk(rng, segs, pick_aad(rng), COMBOS[(p + j) % 4], "256 left after the carried block"))
-    for j in range({"quick": 150, "thorough": 1500}[tier] * scale):
+    # counter-byte carry in streaming: the running block counter crosses a multiple of 256 at every
+    # offset of the group being processed by the SECOND update (the first one stops k blocks short
+    # of block 255 / 511, with or without a carried partial block)
+    for k in range(18):
+        for j, (pre, p) in enumerate([(0, 0), (0, 5), (2048, 11), (4096, 0)][:(2 if tier == "quick" else 4) * scale + (1 if k % 6 == 0 else 0)]):
+            base = 510 if pre == 4096 else 254
+            first = 16 * (base - k) - pre + p
+            x = [16 * 16, 16 * 24 + 3, 16 * 8, 16 * 50 + 1, 16 * 17 - p, 37][(k + j) % 6]
+            segs = ([pre] if pre else []) + [first, x] + ([rng.choice([0, 1, 16, 40])] if (k + j) % 2 else [])
+            cases.append(mk(rng, segs, rng.choice([0, 0, 7, 20]), COMBOS[(k + j) % 4], "counter low-byte carry across updates"))
+    for j in range({"quick": 250, "thorough": 4000}[tier] * scale):
         n = 1 + rng.below(12)
         segs = [rng.choice(POOL) if rng.below(3) else rng.below(100) for _ in range(n)]
         if rng.below(5) == 0:
             segs[rng.below(n)] = rng.below(2049)
         cases.append(mk(rng, segs, pick_aad(rng), COMBOS[j % 4], "random segmentation"))
-    for j in range({"quick": 60, "thorough": 600}[tier] * scale):      # non-final pieces = 0 mod 64: the _nt rule
+    for j in range({"quick": 100, "thorough": 1500}[tier] * scale):      # non-final pieces = 0 mod 64: the _nt rule
         n = 1 + rng.below(6)
         segs = [64 * rng.choice([0, 1, 1, 2, 3, 4, 8, 12, 16]) for _ in range(n)] + [rng.choice(POOL) if rng.below(2) else rng.below(300)]
         cases.append(mk(rng, segs, pick_aad(rng), COMBOS[j % 4], "pieces = 0 mod 64 (nt rule)"))
-    for j in range({"quick": 12, "thorough": 100}[tier] * scale):       # many tiny updates
+    for j in range({"quick": 16, "thorough": 200}[tier] * scale):       # many tiny updates
         segs = [rng.below(4) for _ in range(20 + rng.below(40))]
         cases.append(mk(rng, segs, pick_aad(rng), COMBOS[j % 4], "many tiny updates"))
     return cases
@@ -125,7 +135,7 @@ def run(tier, replay=None):
         for c, v, detail in oc.wb[:1]:
             rep.violation("white-box: " + detail, {"correspondence": "context vs model", "detail": detail, "case": G.case_json(c, v)}, no_input=True)
         return rep.finish()
-    cases = gen_cases(rng, tier)
+    cases = G.corpus("C07", True) + gen_cases(rng, tier)
     oc = G.evaluate(rep, runner, cases, rng, "C07")
     G.check_bindings(rep, oc)
     G.report_observables(rep, runner, oc, "C07", ORACLE)
@@ -146,6 +156,8 @@ def run(tier, replay=None):
                        "same implementation's one-shot call on the concatenation; segmentations: the full (carried residue 0..15) x (fill "
                        "0..16) grid followed by a bulk part of {128,256,768,384,1024,16,0,48}+0..16 bytes, exactly 256 bytes left after "
                        "the carried block, random lists of 1..12 pieces from the boundary pool, pieces = 0 mod 64, 20..60 updates of 0..3 "
+                       "bytes, a first update stopping 0..17 blocks short of block 255 / 511 (the counter's low byte then wraps at every "
+                       "offset of the groups of the second update), "
                        "bytes; distinct = distinct (case, implementation variant, placement); non-trivial = len + aad_len > 0")
     rep.notes["input_distribution"] = dict(distribution(cases), **oc.dist)
     rep.notes["modelled_bytes"] = sum(len(c["data"]) + len(c["aad"]) for c in cases)
@@ -158,7 +170,7 @@ def run(tier, replay=None):
                       {"correspondence": "isal_gcm_context_data after init / every update vs Model.GcmStream; streaming result vs SP 800-38D",
                        "family": v[0], "detail": detail, "case": G.case_json(c, v), "differences": len(oc.wb)}, no_input=True)
     rep.assumptions = ["the four assembly families are modelled by one Gallina function per entry point (plus the block-deferral policy); they are tied to it only on the generated cases",
-                       "single updates above 2 KiB + 16 and streams above about 4 KiB are not exercised",
+                       "single updates above about 8 KiB and streams above about 9 KiB are not exercised; the 32-bit counter wrap needs 2^32 blocks and is not reachable",
                        "the context after finalize is not compared (vaes_avx512 clears parts of it)",
                        "partial_block_enc_key is compared only on the bytes a later update reads: [partial_block_length, 16) while a block is open",
                        "a fault, a clobbered canary or a modified input buffer is reported as a violation of this property"]
